@@ -191,6 +191,19 @@ function stable_compare(a, b) {
 }
 
 
+function compare_aggregation_keys(a, b) {
+    // Aggregation keys are JSON strings of the key tuples: compare the tuples, not their JSON text
+    if (a === null || b === null)
+        return 0;
+    let [ka, kb] = [JSON.parse(a), JSON.parse(b)];
+    for (var i = 0; i < ka.length; i++) {
+        if (ka[i] !== kb[i])
+            return ka[i] < kb[i] ? -1 : 1;
+    }
+    return 0;
+}
+
+
 function safe_get(record, idx) {
     return idx < record.length ? record[idx] : null;
 }
@@ -701,7 +714,7 @@ class AggregateWriter {
 
     async finish() {
         var all_keys = Array.from(this.aggregation_keys);
-        all_keys.sort();
+        all_keys.sort(compare_aggregation_keys);
         for (var i = 0; i < all_keys.length; i++) {
             var key = all_keys[i];
             var out_fields = [];
